@@ -5,6 +5,7 @@ import gen_scalar
 import gen_py
 import gen_colors
 import gen_tables
+import gen_outconv
 
 REPO = os.environ.get("VERIF_REPO", "/repo")
 GEN = "/verif/coq/Gen"
@@ -22,6 +23,9 @@ def main():
     status.update(st)
     text, st = gen_tables.generate(REPO)
     gen_scalar.write_if_changed(os.path.join(GEN, "Tables_gen.v"), text)
+    status.update(st)
+    text, st = gen_outconv.generate(REPO)
+    gen_scalar.write_if_changed(os.path.join(GEN, "OutConv_gen.v"), text)
     status.update(st)
     for k, v in status.items():
         print(k, v)
